@@ -621,10 +621,14 @@ class simulation_model():
 
         mymemo = self.memo[equation]
 
-        # stay on the decimal time grid: chains of t-self.dt drift in floating point (0.4-0.1-0.1-0.1-0.1 = 2.8e-17, not 0),
-        # which makes "t <= self.starttime" fail and adds an integration step
-        if isinstance(arg, float):
-            arg = round(arg, 10)
+        # stay on the time grid: chains of t-self.dt drift in floating point (0.4-0.1-0.1-0.1-0.1 = 2.8e-17, not 0),
+        # which makes "t <= self.starttime" fail and adds an integration step. A time that is a grid point up to
+        # rounding noise is replaced by starttime + k*dt, computed the same way for every route to that point
+        # (works for decimal and for reciprocal dt); off-grid times (e.g. t - delay) are left alone.
+        if isinstance(arg, float) and self.dt:
+            grid_point = self.starttime + round((arg - self.starttime) / self.dt) * self.dt
+            if abs(arg - grid_point) < 1e-9:
+                arg = grid_point
 
         if arg in mymemo.keys():
             return mymemo[arg]
